@@ -578,7 +578,16 @@ func (e *Extractor) showText(data []byte) {
 		ctmScale = 1.0
 	}
 
-	deviceFontSize := fontSize * ctmScale
+	// The device-space font size is the length of the text-space vector
+	// (0, Tfs) mapped through the text matrix and then the CTM. Multiplying the
+	// two scale factors separately is only right when neither matrix rotates
+	// relative to the other, so the vector is taken through the product.
+	trm := e.gs.GetTextMatrix().Multiply(ctm)
+	trmScale := math.Hypot(trm[2], trm[3])
+	if trmScale == 0 {
+		trmScale = math.Hypot(trm[0], trm[1])
+	}
+	deviceFontSize := e.gs.GetFontSize() * trmScale
 
 	fragment := TextFragment{
 		Text:      decodedText,
